@@ -60,6 +60,7 @@ fn all_delivered(s: &BSent, out: &mut Vec<Vec<u8>>) {
 pub fn cfg() -> BroadCfg {
     BroadCfg {
         max_fields: 5,
+        version: true,
         ..BroadCfg::default()
     }
 }
@@ -474,6 +475,64 @@ pub fn check_case(case: &Case, ctx: &mut Ctx, known_hidden: bool) -> Verdict {
         }
     }
 
+    // the built-in help and version flags cluster like any other short flag: `-ah` is `-a -h`
+    if case.mutated.is_none() {
+        let present: Vec<usize> = case
+            .lay
+            .items
+            .iter()
+            .filter_map(|i| match &i.kind {
+                LKind::Occ(o) => Some(o.leaf),
+                _ => None,
+            })
+            .collect();
+        let top_fields: Vec<&Node> = match &case.level.body {
+            Node::Seq(xs) => xs.iter().collect(),
+            other => vec![other],
+        };
+        let sw = top_fields.iter().find_map(|f| match f {
+            Node::Named(x)
+                if x.kind == NamedKind::Switch
+                    && !present.contains(&x.id)
+                    && x.shorts.first().map_or(false, |c| c.is_ascii()) =>
+            {
+                x.shorts.first().copied()
+            }
+            _ => None,
+        });
+        // only when the line has no `--` and no subcommand (the items are appended at the end)
+        let simple = !argv_a.iter().any(|a| a.as_slice() == b"--")
+            && case.level.body.commands(true).is_empty();
+        if let (Some(c), true) = (sw, simple) {
+            for builtin in ['h', 'V'] {
+                let mut split = argv_a.clone();
+                split.push(format!("-{}", c).into_bytes());
+                split.push(format!("-{}", builtin).into_bytes());
+                let mut joined = argv_a.clone();
+                joined.push(format!("-{}{}", c, builtin).into_bytes());
+                let (o1, o2) = (run(&parser, &split), run(&parser, &joined));
+                ctx.eval(2);
+                ctx.class("builtin-flag-in-cluster");
+                let same = match (&o1, &o2) {
+                    (Outcome::Stdout { text: a, .. }, Outcome::Stdout { text: b, .. }) => a == b,
+                    (a, b) => same_outcome(a, b),
+                };
+                if !same {
+                    return Verdict::fail(
+                        format!("spelling/cluster-with-builtin-flag/-{}", builtin),
+                        format!(
+                            "{:?} -> {}\n{:?} -> {}",
+                            show_argv(&split),
+                            o1.short(),
+                            show_argv(&joined),
+                            o2.short()
+                        ),
+                    );
+                }
+            }
+        }
+    }
+
     // adjacent restricted arguments must not accept a detached value
     if let Outcome::Value(_) = &out_a {
         for it in &case.lay.items {
@@ -516,6 +575,85 @@ pub fn check_case(case: &Case, ctx: &mut Ctx, known_hidden: bool) -> Verdict {
     Verdict::Pass
 }
 
+
+// ---------------------------------------------------------------------------------------------
+// second family: a counted flag and an argument restricted with `adjacent()` that share a short
+// name (`-v -v -v=3`): `-v=3` and `--level=3` are the same occurrence of the argument wherever
+// the bare flags stand
+// ---------------------------------------------------------------------------------------------
+
+pub struct SharedCase {
+    pub level: Level,
+    pub a: Vec<Vec<u8>>,
+    pub b: Vec<Vec<u8>>,
+    pub k: usize,
+}
+
+pub fn decode_shared(bytes: &[u8]) -> SharedCase {
+    use crate::mk::*;
+    let mut u = Un::new(bytes);
+    let c = *u.pick(&['v', 'n', 'ñ']);
+    let cs = c.to_string();
+    let flag = Node::Count(rf(&cs, &["verbose"]).b());
+    let arg = opt(arg_adj(&cs, &["level"], Ty::Str));
+    // the argument is declared (and so looked for) first: declared the other way round the bare
+    // flag parser takes the name half of `-v=3`, which is how the definition reads
+    let mut fields = vec![arg, flag];
+    let extra = u.bool();
+    if extra {
+        fields.insert(u.below(3), sw("q", &["quiet"]));
+    }
+    let level = lvl(seq(fields));
+    let k = u.below(4);
+    let mut items: Vec<Vec<u8>> = (0..k).map(|_| format!("-{}", c).into_bytes()).collect();
+    if extra && u.bool() {
+        items.insert(u.below(items.len() + 1), b"-q".to_vec());
+    }
+    let at = u.below(items.len() + 1);
+    let mut a = items.clone();
+    a.insert(at, format!("-{}=3", c).into_bytes());
+    let mut b = items;
+    b.insert(at, b"--level=3".to_vec());
+    SharedCase { level, a, b, k }
+}
+
+fn check_shared(bytes: &[u8], ctx: &mut Ctx) -> Verdict {
+    let case = decode_shared(bytes);
+    let parser = match guarded(|| {
+        let p = build_level(&case.level);
+        p.check_invariants(false);
+        p
+    }) {
+        Ok(p) => p,
+        Err(_) => return Verdict::Skip("definition rejected by check_invariants"),
+    };
+    let (oa, ob) = (run(&parser, &case.a), run(&parser, &case.b));
+    ctx.eval(2);
+    ctx.class("family:flag-and-adjacent-argument-share-a-short-name");
+    if case.k >= 1 {
+        ctx.nontrivial(fnv_str(&format!("{:?}{:?}", case.level, case.a)));
+    }
+    for o in [&oa, &ob] {
+        if let Outcome::Panic { at, msg } = o {
+            return Verdict::fail(format!("panic@{}", at), msg.clone());
+        }
+    }
+    if !same_outcome(&oa, &ob) || !matches!(ob, Outcome::Value(_)) {
+        return Verdict::fail(
+            "spelling/shared-short-name/adjacent-argument",
+            format!(
+                "{}\n  {:?} -> {}\n  {:?} -> {}",
+                show_level(&case.level),
+                show_argv(&case.a),
+                oa.short(),
+                show_argv(&case.b),
+                ob.short()
+            ),
+        );
+    }
+    Verdict::Pass
+}
+
 impl Prop for C02 {
     fn id(&self) -> &'static str {
         "C02"
@@ -541,6 +679,10 @@ impl Prop for C02 {
         ]
     }
     fn check(&self, bytes: &[u8], ctx: &mut Ctx) -> Verdict {
+        // one case in thirty-two belongs to the second family
+        if bytes.first().map_or(false, |b| b % 32 == 31) {
+            return check_shared(&bytes[1..], ctx);
+        }
         let (kg, kh) = C02::known_flags(ctx);
         let case = decode(bytes, kg, kh);
         for _ in 0..case.excluded {
@@ -549,6 +691,15 @@ impl Prop for C02 {
         check_case(&case, ctx, kh)
     }
     fn describe(&self, bytes: &[u8]) -> Value {
+        if bytes.first().map_or(false, |b| b % 32 == 31) {
+            let c = decode_shared(&bytes[1..]);
+            return json!({
+                "family": "flag and adjacent argument sharing a short name",
+                "definition": show_level(&c.level),
+                "argv": show_argv(&c.a),
+                "argv_other_spelling": show_argv(&c.b),
+            });
+        }
         let case = decode(bytes, false, false);
         let opts = opts_for(&case, false);
         let mut st = SpellStats::default();
